@@ -360,6 +360,41 @@ def r1_reader_scope(ctx: Ctx):
 # ----------------------------------------------------------------------
 # X1 refusals (writer)
 
+def w9_rounded_literals(ctx: Ctx):
+    """"Explicitly rounded constants" are in the FPCore-expressible subset, with either sign: `fp.round(-0.1)` is a
+    negation under the rounding in the syntax tree, and one number rounded once in meaning.  `_visit_round` is evaluated,
+    from its source, on each kind of literal under a rounding, bare and negated: a non-zero literal comes out as one FPCore
+    literal of the same value (a zero, negated, keeps the general path -- a literal carries no sign of zero)."""
+    from fractions import Fraction
+
+    from ..minipy import Interp, Obj
+    meths = {n: f for n, (_, _, f) in ctx.repo.methods(BACK, '_FPCoreCompileInstance', inherited=False).items()}
+    fn = meths.get('_visit_round')
+    if fn is None:
+        raise ShapeError('_FPCoreCompileInstance._visit_round not found')
+
+    def lit(kind, value, **f):
+        return Obj(kind, as_rational=lambda: value, **f)
+    mk = {'fpc.Decnum': lambda v: ('lit', Fraction(v)), 'fpc.Hexnum': lambda v: ('lit', v), 'fpc.Integer': lambda v: ('lit', Fraction(v)), 'fpc.Rational': lambda p, q: ('lit', Fraction(p, q)),
+          'fpc.Digits': lambda m, e, b: ('lit', Fraction(m) * Fraction(b) ** e), 'fpc.Cast': lambda a: ('cast', a)}
+    cases = [('0.1', lit('Decnum', Fraction(1, 10), val='0.1'), Fraction(1, 10)), ('3', lit('Integer', Fraction(3), val=3), Fraction(3)), ('rational(1, 3)', lit('Rational', Fraction(1, 3), p=1, q=3), Fraction(1, 3))]
+    for text, node, q in cases:
+        for neg in (False, True):
+            arg = Obj('Neg', arg=node) if neg else node
+            it = Interp({}, meths, self_obj=Obj('_FPCoreCompileInstance'), is_a=lambda k, c: k == c, overrides={**mk, 'self._visit_expr': lambda e, c: ('general', e)})
+            try:
+                got: object = it.call_function(fn, [Obj('Round', arg=arg), None], bound_self=True)
+            except ShapeError:
+                raise
+            want = ('lit', -q if neg else q)
+            ctx.check(got == want, BACK, fn, '_FPCoreCompileInstance._visit_round', f'round({"-" if neg else ""}{text}) is written as the literal {"-" if neg else ""}{text}',
+                      f'written as {got!r}: the operand goes down the general path, where a bare literal is refused -- "cannot compile unrounded constant"')
+    zero = Obj('Neg', arg=lit('Decnum', Fraction(0), val='0.0'))
+    it = Interp({}, meths, self_obj=Obj('_FPCoreCompileInstance'), is_a=lambda k, c: k == c, overrides={**mk, 'self._visit_expr': lambda e, c: ('general', e)})
+    got = it.call_function(fn, [Obj('Round', arg=zero), None], bound_self=True)
+    ctx.check(isinstance(got, tuple) and got[0] == 'cast', BACK, fn, '_FPCoreCompileInstance._visit_round', 'round(-0.0) is not folded into an unsigned literal', f'written as {got!r}: the sign of the zero is lost')
+
+
 def x1_refusals(ctx: Ctx):
     vc = ctx.fn(BACK, '_FPCoreCompileInstance._visit_context')
     t = norm(vc, 100000)
@@ -1012,6 +1047,7 @@ def r3_loop_condition(ctx: Ctx):
 
 
 RULES = [
+    Rule('C12.W9', 'writer: an explicitly rounded constant of either sign is written as one literal of the same value', w9_rounded_literals, 7, 'T'),
     Rule('C12.W8', 'writer: a tensor length is emitted under an integer annotation, wherever it stands', w8_sizes_are_integers, 1, 'F'),
     Rule('C12.W7', 'while bundling: the tuple substitution reaches the condition only; the body reads its own variables', w7_bundle_substitution, 2, 'F'),
     Rule('C12.W6', 'writer: no variable reaches emission spelled like an FPCore constant', w6_reserved_names, 8, 'F,T'),
@@ -1033,6 +1069,10 @@ RULES = [
 from ..selftest import Mutant  # noqa: E402
 
 MUTANTS = [
+    Mutant('negative-rounded-literals-folded-even-for-zero', BACK, "            case Neg(arg=Decnum() | Integer() | Rational() as lit) if lit.as_rational() > 0:", "            case Neg(arg=Decnum() | Integer() | Rational() as lit):", 'C12.W9',
+           'round(-0.0) written as the literal -0.0, whose sign a reader need not keep'),
+    Mutant('negative-rounded-literals-refused', BACK, "            case Neg(arg=Decnum() | Integer() | Rational() as lit) if lit.as_rational() > 0:", "            case Neg(arg=Decnum() | Integer() | Rational() as lit) if False:", 'C12.W9',
+           'finding F143 before its repair: fp.round(-0.1) makes the writer refuse the program'),
     Mutant('plain-loop-target-not-renamed-with-the-body', 'fpy2/transform/for_bundling.py', "                    target: Id | TupleBinding = rename.get(stmt.target, stmt.target)\n", "                    target: Id | TupleBinding = stmt.target\n", 'C12.W5',
            'finding F142 before its repair: a loop target the body also assigns makes the writer fail'),
     Mutant('tensor-length-emitted-bare', BACK, "    return fpc.Ctx({ 'precision': 'integer' }, fpc.Size(arr, dim))\n", "    return fpc.Size(arr, dim)\n", 'C12.W8',
